@@ -26,6 +26,7 @@ inductive Var
   | reqHeaders | reqHeadersNames | tx | matchedVar | matchedVarName | matchedVars | matchedVarsNames
   | argsCombinedSize
   | reqUriRaw | reqUri | reqFilename | reqBasename | queryString | reqMethod | reqLine | reqProtocol
+  | reqCookies | reqCookiesNames | respHeaders | respHeadersNames
   | unknown
 deriving Repr, DecidableEq
 
@@ -42,6 +43,8 @@ def Var.name : Var → Bytes
   | .reqFilename => Bytes.ofString "REQUEST_FILENAME" | .reqBasename => Bytes.ofString "REQUEST_BASENAME"
   | .queryString => Bytes.ofString "QUERY_STRING" | .reqMethod => Bytes.ofString "REQUEST_METHOD"
   | .reqLine => Bytes.ofString "REQUEST_LINE" | .reqProtocol => Bytes.ofString "REQUEST_PROTOCOL"
+  | .reqCookies => Bytes.ofString "REQUEST_COOKIES" | .reqCookiesNames => Bytes.ofString "REQUEST_COOKIES_NAMES"
+  | .respHeaders => Bytes.ofString "RESPONSE_HEADERS" | .respHeadersNames => Bytes.ofString "RESPONSE_HEADERS_NAMES"
   | .unknown => Bytes.ofString "UNKNOWN"
 
 structure KV where
@@ -203,6 +206,8 @@ structure Tx where
   argsPost : CMap := {}
   argsPath : CMap := {}
   reqHeaders : CMap := {}
+  reqCookies : CMap := {}
+  respHeaders : CMap := {}
   txc : CMap := {}
   matchedVar : Bytes := []
   matchedVarName : Bytes := []
@@ -244,6 +249,7 @@ def keyedGet (tx : Tx) (v : Var) (key : Bytes) : Option Bytes :=
   let m : Option CMap := match v with
     | .tx => some tx.txc | .argsGet => some tx.argsGet | .argsPost => some tx.argsPost
     | .argsPath => some tx.argsPath | .reqHeaders => some tx.reqHeaders | .matchedVars => some tx.matchedVars
+    | .reqCookies => some tx.reqCookies | .respHeaders => some tx.respHeaders
     | _ => none
   match m with
   | some m => (m.get key).head?
@@ -277,6 +283,8 @@ def mapOf (tx : Tx) : Var → CMap
   | .argsPost | .argsPostNames => tx.argsPost
   | .argsPath => tx.argsPath
   | .reqHeaders | .reqHeadersNames => tx.reqHeaders
+  | .reqCookies | .reqCookiesNames => tx.reqCookies
+  | .respHeaders | .respHeadersNames => tx.respHeaders
   | .tx => tx.txc
   | .matchedVars | .matchedVarsNames => tx.matchedVars
   | _ => {}
@@ -307,8 +315,9 @@ def selectRx (tx : Tx) (v : Var) (p : Bytes → Bool) : List MD :=
   match v with
   | .args => (findMapRx tx.argsGet .args p) ++ (findMapRx tx.argsPost .args p) ++ (findMapRx tx.argsPath .args p)
   | .argsNames => (findNamesRx tx.argsGet .argsNames p) ++ (findNamesRx tx.argsPost .argsNames p) ++ (findNamesRx tx.argsPath .argsNames p)
-  | .argsGetNames | .argsPostNames | .reqHeadersNames | .matchedVarsNames => findNamesRx (mapOf tx v) v p
-  | .argsGet | .argsPost | .argsPath | .reqHeaders | .tx | .matchedVars => findMapRx (mapOf tx v) v p
+  | .argsGetNames | .argsPostNames | .reqHeadersNames | .matchedVarsNames | .reqCookiesNames | .respHeadersNames =>
+    findNamesRx (mapOf tx v) v p
+  | .argsGet | .argsPost | .argsPath | .reqHeaders | .tx | .matchedVars | .reqCookies | .respHeaders => findMapRx (mapOf tx v) v p
   | _ => []
 
 /-- the selected entries of a target before exclusions -/
@@ -316,7 +325,8 @@ def select (tx : Tx) (v : Var) (key : Bytes) : List MD :=
   match v with
   | .args => (findMap tx.argsGet .args key) ++ (findMap tx.argsPost .args key) ++ (findMap tx.argsPath .args key)
   | .argsNames => (findNames tx.argsGet .argsNames key) ++ (findNames tx.argsPost .argsNames key) ++ (findNames tx.argsPath .argsNames key)
-  | .argsGetNames | .argsPostNames | .reqHeadersNames | .matchedVarsNames => findNames (mapOf tx v) v key
+  | .argsGetNames | .argsPostNames | .reqHeadersNames | .matchedVarsNames | .reqCookiesNames | .respHeadersNames =>
+    findNames (mapOf tx v) v key
   | .matchedVar => [⟨.matchedVar, [], tx.matchedVar⟩]          -- Single.FindAll
   | .matchedVarName => [⟨.matchedVarName, [], tx.matchedVarName⟩]
   | .argsCombinedSize =>
